@@ -12,5 +12,5 @@ echo "meta hijri-table" | ./build/oracle | cut -f1 > build/hijri_table.json || t
 ./build/extract -repo "$R" -out lean/Starcal/Gen || echo "extract reported problems (the checks will report them)"
 (cd lean && timeout 3000 lake build Starcal driver)
 # tie theorems `translated source = model` (soft obligations: a failure here is reported by the checks, not by setup)
-(cd lean && timeout 3000 lake build Starcal.SrcTie.All Starcal.SrcTie.Cal Starcal.SrcTie.Cal2 Starcal.SrcTie.Tod Starcal.SrcTie.Interval Starcal.SrcTie.Valid Starcal.SrcTie.NoOverflow Starcal.SrcTie.Normalize Starcal.SrcTie.Humanize Starcal.SrcTie.NumList Starcal.SrcTie.Intersect Starcal.SrcTie.Bisect Starcal.SrcTie.HijriTable) || echo "source ties did not build (the checks will say which)"
+(cd lean && timeout 3000 lake build Starcal.SrcTie.All Starcal.SrcTie.Cal Starcal.SrcTie.Cal2 Starcal.SrcTie.Tod Starcal.SrcTie.Interval Starcal.SrcTie.Valid Starcal.SrcTie.NoOverflow Starcal.SrcTie.NoOverflow2 Starcal.SrcTie.Normalize Starcal.SrcTie.Humanize Starcal.SrcTie.NumList Starcal.SrcTie.Intersect Starcal.SrcTie.Bisect Starcal.SrcTie.HijriTable) || echo "source ties did not build (the checks will say which)"
 echo "setup ok"
